@@ -24,7 +24,7 @@ RULE = ("stimuli: every notification shape of the catalogue (picture set/delete,
         "text-type messages whose payload is a revoke, an image under type text, empty or made of unknown fields (1:1 and group; in groups "
         "also merged with a sender key, as a re-sent copy is), "
         "media-type messages with an unknown media type (media module present), and the picture notification that is neither set "
-        "nor delete (outside the guarantee, only labelled); each generated stimulus runs in all 32 configurations. Non-trivial = "
+        "nor delete (outside the guarantee, only labelled); encrypt key-count notifications also with an injected key-store fault (storeSignedPreKey / storePreKey / loadSignedPreKeys raise sqlite3.OperationalError: the refresh fails, the acknowledgement is still due once); each generated stimulus runs in all 32 configurations. Non-trivial = "
         "participant present, or unknown type, or a configuration with a module left out. Every (stimulus, configuration) pair is "
         "one evaluation.")
 ASSUMPTIONS = [
